@@ -22,7 +22,15 @@ func init() {
 			"(5) serial numbers come from crypto/rand over at least 64 bits and every template's SerialNumber is that value; " +
 			"(6) certutil builds the template from the validated parameters (NotAfter, names), signs with the signing bundle's certificate and key, and copies CSR values only under UseCSRValues; " +
 			"(7) key type/size of the role is enforced before the bundle is built (RSA >= 2048, CSR key algorithm = role key type, minimum bits); " +
-			"(8) the endpoints pass the role they looked up, the useCSRValues flag is true only for sign-verbatim / sign-intermediate, the issuer's leaf_not_after_behavior is only overridden by the tabled writers, the CEL endpoints refuse on a non-template verdict.",
+			"(8) the endpoints pass the role they looked up, the useCSRValues flag is true only for sign-verbatim / sign-intermediate, the issuer's leaf_not_after_behavior is only overridden by the tabled writers, the CEL endpoints refuse on a non-template verdict; " +
+			"(gaps) issue/:role overwrites the role's key type/bits from the request only for key_type=any roles; " +
+			"certutil.AddKeyUsages appends each x509 extended key usage only behind the test of its own Params.ExtKeyUsage bit and parseExtKeyUsages sets each legacy flag's bit only behind that role flag; " +
+			"getCertificateNotBefore never succeeds from the forbid arm and leaves the duration arm only across the comparison with now - not_before_duration; " +
+			"the signing bundle of issue/sign/ACME is fetched with IssuanceUsage, the usage is handed unchanged down to fetchCAInfoByIssuerId, which returns a bundle only across the success edge of EnsureUsage(usage); " +
+			"buildSignVerbatimRole copies the role's ttl/max_ttl into the sign-verbatim role; getRole upgrades a legacy role's ttl/max_ttl from its own legacy field; " +
+			"validateUserId, validateSerialNumber, validateURISAN and validateOtherSANs accept only behind a match against the role's list (constant flags, no acceptance after a missing OID or unmatched value); " +
+			"with allow_globs_in_identity_templates off, identity templates in validateNames/validateURISAN are populated only after * was blocked; " +
+			"the update and patch issuer endpoints store for each leaf_not_after_behavior name the enum value certutil's name table gives it, and every other writer of issuerEntry.LeafNotAfterBehavior stores err.",
 		NotDecided: "the string/suffix/glob semantics of validateNames over DNS labels (values); that the parsed certificate satisfies all constraints simultaneously; serial uniqueness (probabilistic); arithmetic of time comparisons; the policy expressed by a CEL role program (CEL roles replace, not refine, classic roles); crypto/x509's own encoding.",
 		Run:        runC15,
 	})
@@ -262,6 +270,7 @@ func runC15(c *eng.Ctx, thorough bool) {
 	c15Template(c)
 	c15KeyChecks(c)
 	c15Endpoints(c)
+	runC15Gaps2(c)
 }
 
 // ---- C15.1 who may call the signing primitives; the bundle comes from generateCreationBundle
